@@ -58,6 +58,7 @@ def main():
     ap.add_argument('--only')
     ap.add_argument('--kind', default='all', choices=['all', 'seeded', 'mutants'])
     ap.add_argument('--shard', default='0/1', help='k/n: only every n-th item starting at k (parallel audits)')
+    ap.add_argument('--skip-log', help='log of an earlier, interrupted audit: items it lists as caught are not run again')
     args = ap.parse_args()
     if not args.all:
         rc, _ = run_one(args.pid, args.patch, args.reverse, args.tier, args.seed)
@@ -73,6 +74,10 @@ def main():
         name = os.path.basename(p)
         items.append((name.split('_')[0], p, name, name.endswith('.rev.patch')))
     k, n = (int(x) for x in args.shard.split('/'))
+    if args.skip_log:
+        import re
+        done = {nm for _, nm, v in re.findall(r'^(C\d+) (\S+)\s+(caught)\s*$', open(args.skip_log).read(), re.M)}
+        items = [it for it in items if it[2] not in done]
     for idx, (pid, patch, name, rev) in enumerate(items):
         if idx % n != k:
             continue
